@@ -9,6 +9,7 @@ HX=/tmp/hx-$TAG; VD=/tmp/vd-$TAG
 rm -rf "$HX" "$VD"; mkdir -p "$VD/bin"; cp -r /verif/harness "$HX"; cp /verif/known_findings.json "$VD/"
 sed -i "s#=> /repo#=> $WT#" "$HX/go.mod"
 ( cd "$HX" && go build -tags verif -o "$VD/bin/vchk" ./cmd/vchk ) || { echo "build failed"; ( cd "$WT" && git checkout -q -- . ); exit 3; }
+case " $* " in *" C25 "*) ( cd "$HX" && go build -race -tags verif -o "$VD/bin/vchk.race" ./cmd/vchk ) || echo "race build failed";; esac
 for P in "$@"; do
   for S in ${MUT_SEEDS:-1}; do
     VERIF_DIR="$VD" VERIF_SEED=$S VERIF_TIER=${MUT_TIER:-quick} timeout 1500 "$VD/bin/vchk" run "$P" > "$VD/out-$P-$S.txt" 2>&1
